@@ -54,11 +54,9 @@ theorem upsert_upsert {K V : Type} [DecidableEq K] (l : List (K × V)) (k : K) (
     by_cases hk : k' = k <;> simp [upsert, hk, ih]
 
 theorem jappend_some (s s1 : Impl) (e : Entry) (h : s.jappend e = some s1) :
-    ∃ j, s.journal.append e = some j ∧ s1 = { s with journal := j } := by
-  unfold Impl.jappend at h
-  cases hj : s.journal.append e with
-  | none => simp [hj] at h
-  | some j => simp [hj] at h; exact ⟨j, rfl, h.symm⟩
+    s1 = { s with journal := s.journal.append e } := by
+  simp only [Impl.jappend, Option.some.injEq] at h
+  exact h.symm
 
 theorem liveAt_view (s : Impl) (a : Addr) : s.liveAt a = (s.view a).isSome := by
   unfold Impl.liveAt Impl.view
@@ -133,20 +131,20 @@ theorem sim_createAccount {s s' : Impl} {r : Ref} (c : Cfg) (h : Sim s r) (a : A
           | some s3 =>
             simp only [hj2, Option.map_some, Option.some.injEq] at hs
             subst hs
-            obtain ⟨j1, hja1, he1⟩ := jappend_some sa s2 _ hj1
-            obtain ⟨j2, hja2, he2⟩ := jappend_some _ s3 _ hj2
+            have he1 := jappend_some sa s2 _ hj1
+            have he2 := jappend_some _ s3 _ hj2
             subst he1
-            have hja2' : j1.append (Entry.balance a (sa.store.balOf a)) = some j2 := hja2
             -- the same final state without the intermediate cache write
             have hfinal : s3.setObj { Obj.fresh a (sa.store.balOf a) with bal := p.bal } =
-                ({ sa with journal := j2 } : Impl).setObj (Obj.fresh a p.bal) := by
+                ({ sa with journal := (sa.journal.append (Entry.resetObject p)).append (Entry.balance a (sa.store.balOf a)) } : Impl).setObj (Obj.fresh a p.bal) := by
               subst he2
               simp only [Impl.setObj, Obj.fresh, upsert_upsert]
             rw [hfinal]
-            have hst : Step s sa r r.cur [] := (Step.refl h).sameAbs hs0.1 hs0.2.1 hs0.2.2.1
-            have hch : sa.jappends [Entry.resetObject p, Entry.balance a (sa.store.balOf a)] = some ({ sa with journal := j2 } : Impl) := by
-              simp [Impl.jappends, Impl.jappend, hja1, hja2']
-            have hm := hst.mutate (s2 := ({ sa with journal := j2 } : Impl)) a p (hst.acct a p hobj hok)
+            have hst : Step s sa r r.cur [] := (Step.refl h).sameAbs hs0.1 hs0.2.1 hs0.2.2.1 (getObj_okOf s sa h.cinv a _ hgo)
+            have hch : sa.jappends [Entry.resetObject p, Entry.balance a (sa.store.balOf a)] =
+                some ({ sa with journal := (sa.journal.append (Entry.resetObject p)).append (Entry.balance a (sa.store.balOf a)) } : Impl) := by
+              simp [Impl.jappends, Impl.jappend]
+            have hm := hst.mutate (s2 := ({ sa with journal := (sa.journal.append (Entry.resetObject p)).append (Entry.balance a (sa.store.balOf a)) } : Impl)) a p (hst.acct a p hobj hok)
               [Entry.resetObject p, Entry.balance a (sa.store.balOf a)] hch
               (by intro b; simp [Entry.dirtied]; exact eq_comm)
               (by intro e he; simp at he; rcases he with he | he <;> subst he; exact hok; trivial)
@@ -156,6 +154,16 @@ theorem sim_createAccount {s s' : Impl} {r : Ref} (c : Cfg) (h : Sim s r) (a : A
                 intro W
                 simp only [List.reverse_cons, List.reverse_nil, List.nil_append, List.singleton_append, undoAbs, Entry.undo,
                   AW.modAcct, updF_same, Option.map_some, updF_updF, haddr])
+              (by intro W; simp [JOK, EntryLive])
+              (by
+                show OOK _ (Entry.balance a (sa.store.balOf a) :: Entry.resetObject p :: sa.journal.entries.reverse)
+                refine ⟨trivial, trivial, OOK_mono _ ?_ hst.ook⟩
+                intro b k hb
+                simp only [undoF, updF, haddr]
+                by_cases hba : b = a
+                · simp only [hba, if_true]
+                  rw [hba, okOf_cached sa a p k hobj] at hb; exact hb
+                · simp only [hba, if_false]; exact hb)
             have := h.step hm
             simp only [Ref.step, hw]
             exact this
@@ -168,10 +176,12 @@ theorem Step.plain {s s1 s2 : Impl} {r : Ref} {w1 w2 : RWorld} {es : List Entry}
     (hnr : s2.nextRev = s1.nextRev) (hth : s2.thash = s1.thash)
     (hd : el.filterMap Entry.dirtied = []) (hstatic : EntriesOK s.store el)
     (habs : absI s2 = absR w2) (hundo : undoAbs s.store el.reverse (absI s2) = absI s1)
-    (hacc : w2.accts = w1.accts) (htch : w2.touched = w1.touched) :
+    (hacc : w2.accts = w1.accts) (htch : w2.touched = w1.touched)
+    (hlive : JOK s.store (absI s2) el.reverse) (hcnt : JCnt s2.journal)
+    (hpl : ∀ e ∈ el, e.plain = true ∧ EntrySupp s1.okOf e) :
     Step s s2 r w2 (es ++ el) := by
   refine ⟨⟨?_, ?_, ?_⟩, hstore.trans st.store, ?_, hrev.trans st.revisions, hnr.trans st.nextRev, hth.trans st.thash,
-    entriesOK_append.mpr ⟨st.static, hstatic⟩, habs, ?_, ?_, ?_, ?_⟩
+    entriesOK_append.mpr ⟨st.static, hstatic⟩, habs, ?_, ?_, ?_, ?_, ?_, hcnt, ?_⟩
   · intro a o ha; rw [hobjs] at ha; rw [hstore]; exact st.cinv.objs a o ha
   · rw [hobjs]; exact st.cinv.nodup
   · rw [hstore]; exact st.cinv.store
@@ -182,135 +192,110 @@ theorem Step.plain {s s1 s2 : Impl} {r : Ref} {w1 w2 : RWorld} {es : List Entry}
     have : w2.view a = w1.view a := by simp [RWorld.view, RWorld.get, hacc]
     rw [this]; exact st.tc a ha
   · rw [hacc]; exact st.nodup
+  · rw [List.reverse_append, JOK_append, hundo]; exact ⟨hlive, st.jok⟩
+  · have hok2 : s2.okOf = s1.okOf := by funext b k; simp [Impl.okOf, hobjs]
+    rw [hje, List.reverse_append, hok2]
+    exact OOK_plain el.reverse _ _ (fun e he => hpl e (List.mem_reverse.mp he)) st.ook
 
 theorem view_congr {s s2 : Impl} (hobjs : s2.objs = s.objs) (hstore : s2.store = s.store) : s2.view = s.view := by
   funext a; simp [Impl.view, hobjs, hstore]
 
+theorem abs_fields {s : Impl} {r : Ref} (h : Sim s r) :
+    s.view = r.cur.view ∧ s.refund = r.cur.refund ∧
+    (∀ h', (alookup h' s.logs).getD [] = (r.cur.logs.filter (fun l => l.1 == h')).map (·.2)) ∧
+    s.logSize = r.cur.logs.length ∧ (∀ a, s.alAddrs.count a = r.cur.alAddrs.count a) ∧
+    (∀ p, s.alSlots.count p = r.cur.alSlots.count p) := by
+  have := h.abs
+  simp only [absI, absR, AW.mk.injEq] at this
+  exact ⟨this.1, this.2.1, fun h' => congrFun this.2.2.1 h', this.2.2.2.1, fun a => congrFun this.2.2.2.2.1 a,
+    fun p => congrFun this.2.2.2.2.2 p⟩
+
+theorem mem_iff_of_count {α : Type} [BEq α] [LawfulBEq α] {l1 l2 : List α} {a : α} (h : l1.count a = l2.count a) :
+    a ∈ l1 ↔ a ∈ l2 := by
+  rw [← List.count_pos_iff, ← List.count_pos_iff, h]
+
 theorem sim_addRefund {s : Impl} {r : Ref} (c : Cfg) (h : Sim s r) (n : Nat) (s1 : Impl)
     (hj : s.jappend (.refund s.refund) = some s1) :
     Sim { s1 with refund := s1.refund + n } (r.step c (.addRefund n)).1 := by
-  have hjs := jappend_spec s s1 _ hj
-  have hr : s.refund = r.cur.refund := by have := h.abs; simp only [absI, absR, AW.mk.injEq] at this; exact this.2.1
-  have hv : ({ s1 with refund := s1.refund + n } : Impl).view = s.view := view_congr hjs.2.1 hjs.2.2.1
-  have hst := (Step.refl h).plain (s2 := { s1 with refund := s1.refund + n }) (w2 := { r.cur with refund := r.cur.refund + n })
-    [.refund s.refund] hjs.2.1 hjs.2.2.1 hjs.1 hjs.2.2.2.1 hjs.2.2.2.2.1 hjs.2.2.2.2.2.2.1 rfl
+  have hS := jappend_some s s1 _ hj
+  subst hS
+  have hf := abs_fields h
+  have hst := (Step.refl h).plain
+    (s2 := ({ ({ s with journal := s.journal.append (.refund s.refund) } : Impl) with refund := s.refund + n } : Impl))
+    (w2 := { r.cur with refund := r.cur.refund + n })
+    [.refund s.refund] rfl rfl (append_entries _ _) rfl rfl rfl rfl
     (by intro e he; simp at he; subst he; trivial)
     (by
-      have := h.abs
-      simp only [absI, absR, AW.mk.injEq] at this ⊢
-      refine ⟨?_, ?_, ?_, ?_, ?_, ?_⟩
-      · rw [hv]; exact this.1
-      · show s1.refund + n = _; rw [hjs.2.2.2.2.2.1, hr]
-      · show (fun h => (alookup h s1.logs).getD []) = _; rw [hjs.2.2.2.2.2.2.2.1]; exact this.2.2.1
-      · show s1.logSize = _; rw [hjs.2.2.2.2.2.2.2.2.1]; exact this.2.2.2.1
-      · show s1.alAddrs = _; rw [hjs.2.2.2.2.2.2.2.2.2.1]; exact this.2.2.2.2.1
-      · show s1.alSlots = _; rw [hjs.2.2.2.2.2.2.2.2.2.2]; exact this.2.2.2.2.2)
-    (by
-      simp only [List.reverse_cons, List.reverse_nil, List.nil_append, undoAbs, Entry.undo, absI, AW.mk.injEq]
-      refine ⟨hv, trivial, ?_, ?_, ?_, ?_⟩
-      · show (fun h => (alookup h s1.logs).getD []) = _; rw [hjs.2.2.2.2.2.2.2.1]
-      · show s1.logSize = _; rw [hjs.2.2.2.2.2.2.2.2.1]
-      · show s1.alAddrs = _; rw [hjs.2.2.2.2.2.2.2.2.2.1]
-      · show s1.alSlots = _; rw [hjs.2.2.2.2.2.2.2.2.2.2])
-    rfl rfl
+      have h1 : absI ({ ({ s with journal := s.journal.append (.refund s.refund) } : Impl) with refund := s.refund + n } : Impl)
+          = { absI s with refund := s.refund + n } := rfl
+      rw [h1, h.abs, hf.2.1]; rfl)
+    rfl rfl rfl (by simp [JOK, EntryLive]) (h.cnt.append _) (by intro e he; simp at he; subst he; exact ⟨rfl, trivial⟩)
   exact h.step hst
 
 theorem sim_subRefund {s : Impl} {r : Ref} (c : Cfg) (h : Sim s r) (n : Nat) (s1 : Impl)
     (hj : s.jappend (.refund s.refund) = some s1) (hn : ¬ n > s1.refund) :
     (r.step c (.subRefund n)).2 = .unit ∧ Sim { s1 with refund := s1.refund - n } (r.step c (.subRefund n)).1 := by
-  have hjs := jappend_spec s s1 _ hj
-  have hr : s.refund = r.cur.refund := by have := h.abs; simp only [absI, absR, AW.mk.injEq] at this; exact this.2.1
-  have hv : ({ s1 with refund := s1.refund - n } : Impl).view = s.view := view_congr hjs.2.1 hjs.2.2.1
-  have hn' : ¬ n > r.cur.refund := by rw [← hr, ← hjs.2.2.2.2.2.1]; exact hn
-  have hst := (Step.refl h).plain (s2 := { s1 with refund := s1.refund - n }) (w2 := { r.cur with refund := r.cur.refund - n })
-    [.refund s.refund] hjs.2.1 hjs.2.2.1 hjs.1 hjs.2.2.2.1 hjs.2.2.2.2.1 hjs.2.2.2.2.2.2.1 rfl
+  have hS := jappend_some s s1 _ hj
+  subst hS
+  have hf := abs_fields h
+  have hn' : ¬ n > r.cur.refund := by rw [← hf.2.1]; exact hn
+  have hst := (Step.refl h).plain
+    (s2 := ({ ({ s with journal := s.journal.append (.refund s.refund) } : Impl) with refund := s.refund - n } : Impl))
+    (w2 := { r.cur with refund := r.cur.refund - n })
+    [.refund s.refund] rfl rfl (append_entries _ _) rfl rfl rfl rfl
     (by intro e he; simp at he; subst he; trivial)
     (by
-      have := h.abs
-      simp only [absI, absR, AW.mk.injEq] at this ⊢
-      refine ⟨?_, ?_, ?_, ?_, ?_, ?_⟩
-      · rw [hv]; exact this.1
-      · show s1.refund - n = _; rw [hjs.2.2.2.2.2.1, hr]
-      · show (fun h => (alookup h s1.logs).getD []) = _; rw [hjs.2.2.2.2.2.2.2.1]; exact this.2.2.1
-      · show s1.logSize = _; rw [hjs.2.2.2.2.2.2.2.2.1]; exact this.2.2.2.1
-      · show s1.alAddrs = _; rw [hjs.2.2.2.2.2.2.2.2.2.1]; exact this.2.2.2.2.1
-      · show s1.alSlots = _; rw [hjs.2.2.2.2.2.2.2.2.2.2]; exact this.2.2.2.2.2)
-    (by
-      simp only [List.reverse_cons, List.reverse_nil, List.nil_append, undoAbs, Entry.undo, absI, AW.mk.injEq]
-      refine ⟨hv, trivial, ?_, ?_, ?_, ?_⟩
-      · show (fun h => (alookup h s1.logs).getD []) = _; rw [hjs.2.2.2.2.2.2.2.1]
-      · show s1.logSize = _; rw [hjs.2.2.2.2.2.2.2.2.1]
-      · show s1.alAddrs = _; rw [hjs.2.2.2.2.2.2.2.2.2.1]
-      · show s1.alSlots = _; rw [hjs.2.2.2.2.2.2.2.2.2.2])
-    rfl rfl
+      have h1 : absI ({ ({ s with journal := s.journal.append (.refund s.refund) } : Impl) with refund := s.refund - n } : Impl)
+          = { absI s with refund := s.refund - n } := rfl
+      rw [h1, h.abs, hf.2.1]; rfl)
+    rfl rfl rfl (by simp [JOK, EntryLive]) (h.cnt.append _) (by intro e he; simp at he; subst he; exact ⟨rfl, trivial⟩)
   simp only [Ref.step, hn', if_false]
   exact ⟨trivial, h.step hst⟩
 
 theorem sim_subRefund_panic {s : Impl} {r : Ref} (c : Cfg) (h : Sim s r) (n : Nat) (hn : n > s.refund) :
     (r.step c (.subRefund n)).2 = .panic := by
-  have hr : s.refund = r.cur.refund := by have := h.abs; simp only [absI, absR, AW.mk.injEq] at this; exact this.2.1
+  have hr : s.refund = r.cur.refund := (abs_fields h).2.1
   rw [hr] at hn
   simp only [Ref.step, hn, if_true]
 
 /-! ### logs -/
 
-theorem abs_fields {s : Impl} {r : Ref} (h : Sim s r) :
-    s.view = r.cur.view ∧ s.refund = r.cur.refund ∧
-    (∀ h', (alookup h' s.logs).getD [] = (r.cur.logs.filter (fun l => l.1 == h')).map (·.2)) ∧
-    s.logSize = r.cur.logs.length ∧ s.alAddrs = r.cur.alAddrs ∧ s.alSlots = r.cur.alSlots := by
-  have := h.abs
-  simp only [absI, absR, AW.mk.injEq] at this
-  exact ⟨this.1, this.2.1, fun h' => congrFun this.2.2.1 h', this.2.2.2.1, this.2.2.2.2.1, this.2.2.2.2.2⟩
-
 theorem sim_addLog {s s' : Impl} {r : Ref} (c : Cfg) (h : Sim s r) (a : Addr) (p : Nat)
     (hs : s.addLog a p = some s') : Sim s' (r.step c (.addLog a p)).1 := by
-  unfold Impl.addLog at hs
-  cases hj : s.jappend (.addLog s.thash) with
-  | none => simp [hj] at hs
-  | some s1 =>
-    simp only [hj, Option.map_some, Option.some.injEq] at hs
-    subst hs
-    have hjs := jappend_spec s s1 _ hj
-    have hf := abs_fields h
-    have hlogs : s1.logs = s.logs := hjs.2.2.2.2.2.2.2.1
-    have hls : s1.logSize = s.logSize := hjs.2.2.2.2.2.2.2.2.1
-    have hth : s1.thash = s.thash := hjs.2.2.2.2.2.2.1
-    have hst := (Step.refl h).plain
-      (s2 := { s1 with logs := upsert s1.logs s1.thash (((alookup s1.thash s1.logs).getD []) ++ [(s1.logSize, a, p)]), logSize := s1.logSize + 1 })
-      (w2 := { r.cur with logs := r.cur.logs ++ [(r.thash, r.cur.logs.length, a, p)] })
-      [.addLog s.thash] hjs.2.1 hjs.2.2.1 hjs.1 hjs.2.2.2.1 hjs.2.2.2.2.1 hth rfl
-      (by intro e he; simp at he; subst he; trivial)
-      (by
-        simp only [absI, absR, AW.mk.injEq]
-        refine ⟨?_, ?_, ?_, ?_, ?_, ?_⟩
-        · exact (view_congr (s := s) hjs.2.1 hjs.2.2.1).trans hf.1
-        · show s1.refund = _; rw [hjs.2.2.2.2.2.1]; exact hf.2.1
-        · funext h'
-          simp only [alookup_upsert, List.filter_append, List.map_append, hlogs, hls, hth]
-          by_cases hh : h' = s.thash
-          · subst hh
-            simp only [if_true, Option.getD_some, hf.2.2.1, ← h.thash, hf.2.2.2.1]
-            simp
-          · have : ¬ (r.thash == h') = true := by rw [← h.thash]; simpa using fun e => hh e.symm
-            simp only [hh, if_false, hf.2.2.1]
-            simp [List.filter_cons, this]
-        · show s1.logSize + 1 = _; rw [hls, hf.2.2.2.1]; simp
-        · show s1.alAddrs = _; rw [hjs.2.2.2.2.2.2.2.2.2.1]; exact hf.2.2.2.2.1
-        · show s1.alSlots = _; rw [hjs.2.2.2.2.2.2.2.2.2.2]; exact hf.2.2.2.2.2)
-      (by
-        simp only [List.reverse_cons, List.reverse_nil, List.nil_append, undoAbs, Entry.undo, absI, AW.mk.injEq]
-        refine ⟨view_congr hjs.2.1 hjs.2.2.1, ?_, ?_, ?_, ?_, ?_⟩
-        · show s1.refund = _; rw [hjs.2.2.2.2.2.1]
-        · funext h'
-          simp only [updF, alookup_upsert, hlogs, hls, hth]
-          by_cases hh : h' = s.thash
-          · subst hh; simp
-          · simp [hh]
-        · show s1.logSize + 1 - 1 = _; rw [hls]; simp
-        · show s1.alAddrs = _; rw [hjs.2.2.2.2.2.2.2.2.2.1]
-        · show s1.alSlots = _; rw [hjs.2.2.2.2.2.2.2.2.2.2])
-      rfl rfl
-    exact h.step hst
+  simp only [Impl.addLog, Impl.jappend, Option.map_some, Option.some.injEq] at hs
+  subst hs
+  have hf := abs_fields h
+  have hst := (Step.refl h).plain
+    (s2 := ({ ({ s with journal := s.journal.append (.addLog s.thash) } : Impl) with
+      logs := upsert s.logs s.thash (((alookup s.thash s.logs).getD []) ++ [(s.logSize, a, p)]), logSize := s.logSize + 1 } : Impl))
+    (w2 := { r.cur with logs := r.cur.logs ++ [(r.thash, r.cur.logs.length, a, p)] })
+    [.addLog s.thash] rfl rfl (append_entries _ _) rfl rfl rfl rfl
+    (by intro e he; simp at he; subst he; trivial)
+    (by
+      simp only [absI, absR, AW.mk.injEq]
+      refine ⟨hf.1, hf.2.1, ?_, ?_, funext hf.2.2.2.2.1, funext hf.2.2.2.2.2⟩
+      · funext h'
+        simp only [alookup_upsert, List.filter_append, List.map_append]
+        by_cases hh : h' = s.thash
+        · subst hh
+          simp only [if_true, Option.getD_some, hf.2.2.1, ← h.thash, hf.2.2.2.1]
+          simp
+        · have : ¬ (r.thash == h') = true := by rw [← h.thash]; simpa using fun e => hh e.symm
+          simp only [hh, if_false, hf.2.2.1]
+          simp [this]
+      · show s.logSize + 1 = _; rw [hf.2.2.2.1]; simp)
+    (by
+      simp only [List.reverse_cons, List.reverse_nil, List.nil_append, undoAbs, Entry.undo, absI, AW.mk.injEq]
+      refine ⟨rfl, trivial, ?_, by simp, trivial, trivial⟩
+      funext h'
+      simp only [updF, alookup_upsert]
+      by_cases hh : h' = s.thash
+      · subst hh; simp
+      · simp [hh])
+    rfl rfl
+    (by simp [JOK, EntryLive, absI, alookup_upsert])
+    (h.cnt.append _) (by intro e he; simp at he; subst he; exact ⟨rfl, trivial⟩)
+  exact h.step hst
 
 theorem sim_getLogs {s : Impl} {r : Ref} (h : Sim s r) :
     (alookup s.thash s.logs).getD [] = (r.cur.logs.filter (fun l => l.1 == r.thash)).map (·.2) := by
@@ -318,124 +303,113 @@ theorem sim_getLogs {s : Impl} {r : Ref} (h : Sim s r) :
 
 /-! ### access list -/
 
+theorem count_snoc {α : Type} [BEq α] [LawfulBEq α] (l : List α) (a b : α) :
+    (l ++ [a]).count b = l.count b + (if (a == b) = true then 1 else 0) := by
+  rw [List.count_append, List.count_singleton]
+
+theorem undo_count_snoc {α : Type} [DecidableEq α] [BEq α] [LawfulBEq α] (l : List α) (a : α) :
+    updF (fun b => (l ++ [a]).count b) a ((l ++ [a]).count a - 1) = fun b => l.count b := by
+  funext b
+  by_cases hb : b = a
+  · subst hb
+    simp only [updF, if_true]
+    rw [count_snoc]; simp
+  · have : ¬ (a == b) = true := by simpa using fun e => hb e.symm
+    simp only [updF, hb, if_false]
+    rw [count_snoc]; simp [this]
+
 theorem sim_alAddAddr {s s' : Impl} {r : Ref} (c : Cfg) (h : Sim s r) (a : Addr)
     (hs : s.alAddAddr a = some s') : Sim s' (r.step c (.addAddressToAccessList a)).1 := by
   have hf := abs_fields h
+  have hmem : a ∈ s.alAddrs ↔ a ∈ r.cur.alAddrs := mem_iff_of_count (hf.2.2.2.2.1 a)
   unfold Impl.alAddAddr at hs
   by_cases hin : a ∈ s.alAddrs
   · simp only [hin, if_true, Option.some.injEq] at hs
     subst hs
-    have hin' : a ∈ r.cur.alAddrs := by rw [← hf.2.2.2.2.1]; exact hin
-    simp only [Ref.step, hin', if_true]
+    simp only [Ref.step, hmem.mp hin, if_true]
     exact h
-  · simp only [hin, if_false] at hs
-    have hjs := jappend_spec _ s' _ hs
-    have hin' : ¬ a ∈ r.cur.alAddrs := by rw [← hf.2.2.2.2.1]; exact hin
-    have hst := (Step.refl h).plain (s2 := s') (w2 := { r.cur with alAddrs := r.cur.alAddrs ++ [a] })
-      [.alAddr a] hjs.2.1 hjs.2.2.1 hjs.1 hjs.2.2.2.1 hjs.2.2.2.2.1 hjs.2.2.2.2.2.2.1 rfl
+  · simp only [hin, if_false, Impl.jappend, Option.some.injEq] at hs
+    subst hs
+    have hin' : ¬ a ∈ r.cur.alAddrs := fun e => hin (hmem.mpr e)
+    have hst := (Step.refl h).plain
+      (s2 := ({ ({ s with alAddrs := s.alAddrs ++ [a] } : Impl) with journal := s.journal.append (.alAddr a) } : Impl))
+      (w2 := { r.cur with alAddrs := r.cur.alAddrs ++ [a] })
+      [.alAddr a] rfl rfl (append_entries _ _) rfl rfl rfl rfl
       (by intro e he; simp at he; subst he; trivial)
       (by
         simp only [absI, absR, AW.mk.injEq]
-        refine ⟨?_, ?_, ?_, ?_, ?_, ?_⟩
-        · exact (view_congr (s := s) hjs.2.1 hjs.2.2.1).trans hf.1
-        · rw [hjs.2.2.2.2.2.1]; exact hf.2.1
-        · funext h'; rw [hjs.2.2.2.2.2.2.2.1]; exact hf.2.2.1 h'
-        · rw [hjs.2.2.2.2.2.2.2.2.1]; exact hf.2.2.2.1
-        · rw [hjs.2.2.2.2.2.2.2.2.2.1]; show s.alAddrs ++ [a] = _; rw [hf.2.2.2.2.1]
-        · rw [hjs.2.2.2.2.2.2.2.2.2.2]; exact hf.2.2.2.2.2)
+        refine ⟨hf.1, hf.2.1, funext hf.2.2.1, hf.2.2.2.1, ?_, funext hf.2.2.2.2.2⟩
+        funext b
+        show (s.alAddrs ++ [a]).count b = (r.cur.alAddrs ++ [a]).count b
+        rw [count_snoc, count_snoc, hf.2.2.2.2.1 b])
       (by
         simp only [List.reverse_cons, List.reverse_nil, List.nil_append, undoAbs, Entry.undo, absI, AW.mk.injEq]
-        refine ⟨view_congr hjs.2.1 hjs.2.2.1, hjs.2.2.2.2.2.1, ?_, hjs.2.2.2.2.2.2.2.2.1, ?_, hjs.2.2.2.2.2.2.2.2.2.2⟩
-        · rw [hjs.2.2.2.2.2.2.2.1]
-        · rw [hjs.2.2.2.2.2.2.2.2.2.1]
-          show (s.alAddrs ++ [a]).erase a = s.alAddrs
-          rw [List.erase_append_right _ hin]; simp)
-      rfl rfl
+        exact ⟨rfl, trivial, trivial, trivial, undo_count_snoc s.alAddrs a, trivial⟩)
+      rfl rfl (by simp [JOK, EntryLive]) (h.cnt.append _) (by intro e he; simp at he; subst he; exact ⟨rfl, trivial⟩)
     simp only [Ref.step, hin', if_false]
     exact h.step hst
 
 theorem sim_alAddSlot {s s' : Impl} {r : Ref} (c : Cfg) (h : Sim s r) (a : Addr) (k : Key)
-    (hgd : a ∈ s.alAddrs ∨ (a, k) ∉ s.alSlots)
     (hs : s.alAddSlot a k = some s') : Sim s' (r.step c (.addSlotToAccessList a k)).1 := by
   have hf := abs_fields h
+  have hmemA : a ∈ s.alAddrs ↔ a ∈ r.cur.alAddrs := mem_iff_of_count (hf.2.2.2.2.1 a)
+  have hmemS : (a, k) ∈ s.alSlots ↔ (a, k) ∈ r.cur.alSlots := mem_iff_of_count (hf.2.2.2.2.2 (a, k))
   unfold Impl.alAddSlot at hs
   by_cases hin : a ∈ s.alAddrs
-  · have hin' : a ∈ r.cur.alAddrs := by rw [← hf.2.2.2.2.1]; exact hin
+  · have hin' : a ∈ r.cur.alAddrs := hmemA.mp hin
     by_cases hsl : (a, k) ∈ s.alSlots
-    · have hsl' : (a, k) ∈ r.cur.alSlots := by rw [← hf.2.2.2.2.2]; exact hsl
+    · have hsl' : (a, k) ∈ r.cur.alSlots := hmemS.mp hsl
       simp [hin, hsl] at hs
       subst hs
       simp only [Ref.step, hin', hsl']
       simp
       exact h
-    · have hsl' : ¬ (a, k) ∈ r.cur.alSlots := by rw [← hf.2.2.2.2.2]; exact hsl
-      simp [hin, hsl] at hs
-      have hjs := jappend_spec _ s' _ hs
-      have hst := (Step.refl h).plain (s2 := s') (w2 := { r.cur with alSlots := r.cur.alSlots ++ [(a, k)] })
-        [.alSlot a k] hjs.2.1 hjs.2.2.1 hjs.1 hjs.2.2.2.1 hjs.2.2.2.2.1 hjs.2.2.2.2.2.2.1 rfl
+    · have hsl' : ¬ (a, k) ∈ r.cur.alSlots := fun e => hsl (hmemS.mpr e)
+      simp [hin, hsl, Impl.jappend] at hs
+      subst hs
+      have hst := (Step.refl h).plain
+        (s2 := ({ ({ s with alSlots := s.alSlots ++ [(a, k)] } : Impl) with journal := s.journal.append (.alSlot a k) } : Impl))
+        (w2 := { r.cur with alSlots := r.cur.alSlots ++ [(a, k)] })
+        [.alSlot a k] rfl rfl (append_entries _ _) rfl rfl rfl rfl
         (by intro e he; simp at he; subst he; trivial)
         (by
           simp only [absI, absR, AW.mk.injEq]
-          refine ⟨?_, ?_, ?_, ?_, ?_, ?_⟩
-          · exact (view_congr (s := s) hjs.2.1 hjs.2.2.1).trans hf.1
-          · rw [hjs.2.2.2.2.2.1]; exact hf.2.1
-          · funext h'; rw [hjs.2.2.2.2.2.2.2.1]; exact hf.2.2.1 h'
-          · rw [hjs.2.2.2.2.2.2.2.2.1]; exact hf.2.2.2.1
-          · rw [hjs.2.2.2.2.2.2.2.2.2.1]; exact hf.2.2.2.2.1
-          · rw [hjs.2.2.2.2.2.2.2.2.2.2]; show s.alSlots ++ [(a, k)] = _; rw [hf.2.2.2.2.2])
+          refine ⟨hf.1, hf.2.1, funext hf.2.2.1, hf.2.2.2.1, funext hf.2.2.2.2.1, ?_⟩
+          funext p
+          show (s.alSlots ++ [(a, k)]).count p = (r.cur.alSlots ++ [(a, k)]).count p
+          rw [count_snoc, count_snoc, hf.2.2.2.2.2 p])
         (by
           simp only [List.reverse_cons, List.reverse_nil, List.nil_append, undoAbs, Entry.undo, absI, AW.mk.injEq]
-          refine ⟨view_congr hjs.2.1 hjs.2.2.1, hjs.2.2.2.2.2.1, ?_, hjs.2.2.2.2.2.2.2.2.1, hjs.2.2.2.2.2.2.2.2.2.1, ?_⟩
-          · rw [hjs.2.2.2.2.2.2.2.1]
-          · rw [hjs.2.2.2.2.2.2.2.2.2.2]
-            show (s.alSlots ++ [(a, k)]).erase (a, k) = s.alSlots
-            rw [List.erase_append_right _ hsl]; simp)
-        rfl rfl
+          exact ⟨rfl, trivial, trivial, trivial, trivial, undo_count_snoc s.alSlots (a, k)⟩)
+        rfl rfl (by simp [JOK, EntryLive]) (h.cnt.append _) (by intro e he; simp at he; subst he; exact ⟨rfl, trivial⟩)
       simp only [Ref.step, hin', hsl']
       simp
       exact h.step hst
-  · have hin' : ¬ a ∈ r.cur.alAddrs := by rw [← hf.2.2.2.2.1]; exact hin
-    have hsl : (a, k) ∉ s.alSlots := by
-      cases hgd with
-      | inl h1 => exact absurd h1 hin
-      | inr h2 => exact h2
-    simp [hin] at hs
-    cases hj1 : ({ s with alAddrs := s.alAddrs ++ [a], alSlots := s.alSlots ++ [(a, k)] } : Impl).jappend (.alAddr a) with
-    | none => simp [hj1] at hs
-    | some s2 =>
-      simp only [hj1] at hs
-      have hjs1 := jappend_spec _ s2 _ hj1
-      have hjs2 := jappend_spec _ s' _ hs
-      have hst := (Step.refl h).plain (s2 := s') (w2 := { r.cur with alAddrs := r.cur.alAddrs ++ [a], alSlots := r.cur.alSlots ++ [(a, k)] })
-        [.alAddr a, .alSlot a k] (hjs2.2.1.trans hjs1.2.1) (hjs2.2.2.1.trans hjs1.2.2.1)
-        (by rw [hjs2.1, hjs1.1]; simp) (hjs2.2.2.2.1.trans hjs1.2.2.2.1) (hjs2.2.2.2.2.1.trans hjs1.2.2.2.2.1)
-        (hjs2.2.2.2.2.2.2.1.trans hjs1.2.2.2.2.2.2.1) rfl
-        (by intro e he; simp at he; rcases he with he | he <;> subst he <;> trivial)
-        (by
-          simp only [absI, absR, AW.mk.injEq]
-          refine ⟨?_, ?_, ?_, ?_, ?_, ?_⟩
-          · exact (view_congr (s := s) (hjs2.2.1.trans hjs1.2.1) (hjs2.2.2.1.trans hjs1.2.2.1)).trans hf.1
-          · rw [hjs2.2.2.2.2.2.1, hjs1.2.2.2.2.2.1]; exact hf.2.1
-          · funext h'; rw [hjs2.2.2.2.2.2.2.2.1, hjs1.2.2.2.2.2.2.2.1]; exact hf.2.2.1 h'
-          · rw [hjs2.2.2.2.2.2.2.2.2.1, hjs1.2.2.2.2.2.2.2.2.1]; exact hf.2.2.2.1
-          · rw [hjs2.2.2.2.2.2.2.2.2.2.1, hjs1.2.2.2.2.2.2.2.2.2.1]; show s.alAddrs ++ [a] = _; rw [hf.2.2.2.2.1]
-          · rw [hjs2.2.2.2.2.2.2.2.2.2.2, hjs1.2.2.2.2.2.2.2.2.2.2]; show s.alSlots ++ [(a, k)] = _; rw [hf.2.2.2.2.2])
-        (by
-          simp only [List.reverse_cons, List.reverse_nil, List.nil_append, List.singleton_append, undoAbs, Entry.undo, absI, AW.mk.injEq]
-          refine ⟨view_congr (hjs2.2.1.trans hjs1.2.1) (hjs2.2.2.1.trans hjs1.2.2.1), ?_, ?_, ?_, ?_, ?_⟩
-          · rw [hjs2.2.2.2.2.2.1, hjs1.2.2.2.2.2.1]
-          · rw [hjs2.2.2.2.2.2.2.2.1, hjs1.2.2.2.2.2.2.2.1]
-          · rw [hjs2.2.2.2.2.2.2.2.2.1, hjs1.2.2.2.2.2.2.2.2.1]
-          · rw [hjs2.2.2.2.2.2.2.2.2.2.1, hjs1.2.2.2.2.2.2.2.2.2.1]
-            show (s.alAddrs ++ [a]).erase a = s.alAddrs
-            rw [List.erase_append_right _ hin]; simp
-          · rw [hjs2.2.2.2.2.2.2.2.2.2.2, hjs1.2.2.2.2.2.2.2.2.2.2]
-            show (s.alSlots ++ [(a, k)]).erase (a, k) = s.alSlots
-            rw [List.erase_append_right _ hsl]; simp)
-        rfl rfl
-      simp only [Ref.step, hin']
-      simp
-      exact h.step hst
+  · have hin' : ¬ a ∈ r.cur.alAddrs := fun e => hin (hmemA.mpr e)
+    simp [hin, Impl.jappend] at hs
+    subst hs
+    have hst := (Step.refl h).plain
+      (s2 := ({ ({ s with alAddrs := s.alAddrs ++ [a], alSlots := s.alSlots ++ [(a, k)] } : Impl) with
+          journal := (s.journal.append (.alAddr a)).append (.alSlot a k) } : Impl))
+      (w2 := { r.cur with alAddrs := r.cur.alAddrs ++ [a], alSlots := r.cur.alSlots ++ [(a, k)] })
+      [.alAddr a, .alSlot a k] rfl rfl (by rw [append_entries, append_entries]; simp) rfl rfl rfl rfl
+      (by intro e he; simp at he; rcases he with he | he <;> subst he <;> trivial)
+      (by
+        simp only [absI, absR, AW.mk.injEq]
+        refine ⟨hf.1, hf.2.1, funext hf.2.2.1, hf.2.2.2.1, ?_, ?_⟩
+        · funext b
+          show (s.alAddrs ++ [a]).count b = (r.cur.alAddrs ++ [a]).count b
+          rw [count_snoc, count_snoc, hf.2.2.2.2.1 b]
+        · funext p
+          show (s.alSlots ++ [(a, k)]).count p = (r.cur.alSlots ++ [(a, k)]).count p
+          rw [count_snoc, count_snoc, hf.2.2.2.2.2 p])
+      (by
+        simp only [List.reverse_cons, List.reverse_nil, List.nil_append, List.singleton_append, undoAbs, Entry.undo, absI, AW.mk.injEq]
+        exact ⟨rfl, trivial, trivial, trivial, undo_count_snoc s.alAddrs a, undo_count_snoc s.alSlots (a, k)⟩)
+      rfl rfl (by simp [JOK, EntryLive]) ((h.cnt.append _).append _) (by intro e he; simp at he; rcases he with he | he <;> subst he <;> exact ⟨rfl, trivial⟩)
+    simp only [Ref.step, hin']
+    simp
+    exact h.step hst
 
 /-! ### Snapshot / RevertToSnapshot -/
 
@@ -491,7 +465,7 @@ theorem sim_snapshot {s : Impl} {r : Ref} (c : Cfg) (h : Sim s r) :
     intro x hx
     obtain ⟨y, hy⟩ := All2.forall_left h.revs x hx
     exact hy.le
-  refine ⟨⟨h.cinv.objs, h.cinv.nodup, h.cinv.store⟩, h.entries, ?_, h.thash, ?_, h.touched, h.tc, h.nodup, ?_, ?_, ?_, ?_, h.sticky⟩
+  refine ⟨⟨h.cinv.objs, h.cinv.nodup, h.cinv.store⟩, h.entries, ?_, h.thash, ?_, h.touched, h.tc, h.nodup, ?_, ?_, ?_, ?_, h.sticky, h.jok, h.cnt, h.ook⟩
   · have : absI ({ s with revisions := s.revisions ++ [(s.nextRev, s.journal.entries.length)], nextRev := s.nextRev + 1 } : Impl) = absI s := rfl
     rw [this]; exact h.abs
   · show s.nextRev + 1 = r.nextRev + 1; rw [h.nextRev]
@@ -567,14 +541,18 @@ theorem sim_revert {s s' : Impl} {r : Ref} (c : Cfg) (h : Sim s r) (id : Nat)
         obtain ⟨rid', W⟩ := y
         have hrid : rid = rid' := hxy.id
         subst hrid
-        have hra := revertTo_abs s.journal.entries.length s s1 jidx h.cinv h.entries hxy.le (by omega) hrt
+        have hra := revertTo_abs s.journal.entries.length s s1 jidx h.cinv h.entries h.ook hxy.le (by omega) hrt
+        obtain ⟨s1', hrt', hcnt', hjok'⟩ := revertTo_total s.journal.entries.length s jidx h.cinv h.entries h.jok h.cnt h.ook
+        have hs1 : s1' = s1 := by rw [hrt] at hrt'; exact (Option.some.inj hrt').symm
+        rw [hs1] at hcnt' hjok'
+        have hjok1 := hjok' hxy.le (by omega)
         simp only [Ref.step, ← findRev_eq h rid, hy]
         simp only [ne_eq, not_true_eq_false, if_false, true_and]
         have hjle : ∀ x ∈ s.revisions.take (findRev s.revisions rid), x.2 ≤ jidx := by
           intro x hx'
           have hp := pairwise_take_get (s.revisions.map (·.2)) (findRev s.revisions rid) jidx h.jSorted (by simp [hx])
           exact hp x.2 (by rw [← List.map_take]; exact List.mem_map_of_mem hx')
-        refine ⟨⟨hra.1.objs, hra.1.nodup, hra.1.store⟩, ?_, ?_, ?_, ?_, ?_, ?_, hxy.nodup, ?_, ?_, ?_, ?_, h.sticky⟩
+        refine ⟨⟨hra.1.objs, hra.1.nodup, hra.1.store⟩, ?_, ?_, ?_, ?_, ?_, ?_, hxy.nodup, ?_, ?_, ?_, ?_, h.sticky, ?_, hcnt', ?_⟩
         · show EntriesOK s1.store s1.journal.entries
           rw [hra.2.1, hra.2.2.1]
           intro e he; exact h.entries e (List.mem_of_mem_take he)
@@ -615,6 +593,26 @@ theorem sim_revert {s s' : Impl} {r : Ref} (c : Cfg) (h : Sim s r) (id : Nat)
           rw [List.map_take]; exact h.idsSorted.sublist (List.take_sublist _ _)
         · show ((s.revisions.take _).map (·.2)).Pairwise (· ≤ ·)
           rw [List.map_take]; exact h.jSorted.sublist (List.take_sublist _ _)
+        · show JOK s1.store (absI s1) s1.journal.entries.reverse
+          rw [hra.2.1, hra.2.2.1]; exact hjok1.1
+        · show OOK s1.okOf s1.journal.entries.reverse
+          rw [hra.2.2.1]; exact hjok1.2
     · simp [hid] at hs
+
+/-- RevertToSnapshot fails only for a revision that is not valid -/
+theorem revert_none_legit {s : Impl} {r : Ref} (h : Sim s r) (id : Nat) (hs : s.revertToSnapshot id = none) :
+    s.legitPanic (.revertToSnapshot id) = true := by
+  unfold Impl.revertToSnapshot at hs
+  simp only [Impl.legitPanic]
+  cases hx : s.revisions[findRev s.revisions id]? with
+  | none => rfl
+  | some x =>
+    obtain ⟨rid, jidx⟩ := x
+    simp only [hx] at hs ⊢
+    by_cases hid : rid = id
+    · subst hid
+      obtain ⟨s1, hrt, _, _⟩ := revertTo_total s.journal.entries.length s jidx h.cinv h.entries h.jok h.cnt h.ook
+      simp [hrt] at hs
+    · simpa using hid
 
 end OLP.Evm
